@@ -397,7 +397,7 @@ func Never() Observable[struct{}] {
 	return NewUnsafeObservableWithContext(func(subscriberCtx context.Context, destination Observer[struct{}]) Teardown {
 		done := make(chan struct{})
 
-		go func() {
+		go recoverUnhandledError(func() {
 			for {
 				select {
 				case <-subscriberCtx.Done():
@@ -412,7 +412,7 @@ func Never() Observable[struct{}] {
 					return
 				}
 			}
-		}()
+		})
 
 		return func() {
 			close(done)
